@@ -255,7 +255,7 @@ def run_runner(exe, cases_path, out_path, shards=None, timeout=3000):
         parts[i % k].append(l)
     tmpd = os.path.dirname(out_path)
     def one(i):
-        p = os.path.join(tmpd, ".shard%d.txt" % i)
+        p = os.path.join(tmpd, ".shard%d_%d.txt" % (os.getpid(), i))   # two runs of one check may overlap
         with open(p, "w") as f:
             f.writelines(parts[i])
         rc, out = sh([exe, p], timeout=timeout)
